@@ -456,10 +456,15 @@ where
     fn sample(&mut self) -> usize {
         let r: T = self.rng.random();
         let mut cum: T = T::zero();
-        let mut k = self.probs.len() - 1;
+        // Fallback (the cumulative sum can round below 1): the last category that can occur.
+        let mut k = self
+            .probs
+            .iter()
+            .rposition(|&p| p > T::zero())
+            .unwrap_or(self.probs.len() - 1);
         for (i, &p) in self.probs.iter().enumerate() {
             cum += p;
-            if r <= cum {
+            if r < cum {
                 k = i;
                 break;
             }
